@@ -50,6 +50,9 @@ def run_case(case):
         ca_cfg['challenge_types_by_id'] = case['types_by_id']
     if case.get('status_by_id'):
         ca_cfg['authz_status_by_id'] = case['status_by_id']
+    if case.get('challenge_status_by_id'):
+        # a pending authorization whose challenges are already "processing" (an earlier answer is still being looked at)
+        ca_cfg['challenge_status_by_id'] = case['challenge_status_by_id']
     plan = {'default': ca_cfg}
     hp = {'exit': {}}
     if case.get('fail_at') is not None:
@@ -59,8 +62,10 @@ def run_case(case):
         with open(d + '/hookplan.json', 'w') as f:
             json.dump(hp, f)
         chal_types = ['challenge-http-01', 'challenge-dns-01', 'challenge-tls-alpn-01']
+        # the second challenge hook may also be a file hook (a hook can list types of several families)
+        types2 = chal_types + (['file-post-create', 'file-pre-edit'] if case.get('mixed_hook') else [])
         hooks = [C.rec_hook('h_chal', chal_types, d + '/hooks.log', plan=d + '/hookplan.json'),
-                 C.rec_hook('h_chal2', chal_types, d + '/hooks.log', plan=d + '/hookplan.json'),
+                 C.rec_hook('h_chal2', types2, d + '/hooks.log', plan=d + '/hookplan.json'),
                  C.rec_hook('h_other', [t for t in C.ALL_HOOK_TYPES if t not in chal_types], d + '/hooks.log')]
         idl = []
         for k, (e, _, _) in enumerate(idents):
@@ -192,6 +197,11 @@ def run_case(case):
             before = [h for h in hs if h['t_end'] <= r['t_recv']]
             if not before:
                 pb.append(('post-before-hook', 'challenge %s of %s declared ready %.1f ms before its hook ended' % (ch['type'], ch['identifier'], (min(h['t_end'] for h in hs) - r['t_recv']) / 1e6)))
+            # every configured hook of that challenge type ran, in the configured order, up to the first one that failed
+            names = [h['hook'] for h in sorted(hs, key=lambda h: h['t_start'])]
+            want_names = ['h_chal', 'h_chal2']
+            if names[:2] != want_names and not [h for h in hs if h.get('exit') not in (0, None)]:
+                pb.append(('hook-set', 'challenge %s of %s: hooks run %s, configured for that type: %s' % (ch['type'], ch['identifier'], names, want_names)))
             failed = [h for h in (before or hs) if h.get('exit') not in (0, None)]
             if failed:
                 pb.append(('post-after-failed-hook', 'challenge %s of %s declared ready although its hook %s exited %s' % (ch['type'], ch['identifier'], failed[0]['hook'], failed[0].get('exit'))))
@@ -260,6 +270,10 @@ def gen(tier, r):
             # the configured type is not offered at all for one identifier
             e, (kind, v), ch = r.choice(idents)
             case['types_by_id'] = {v: [c for c in chal if c != ch]}
+        elif k == 9:
+            e, (kind, v), ch = r.choice(idents)
+            case['challenge_status_by_id'] = {v: 'processing'}
+        case['mixed_hook'] = (i % 4 == 3)
         if k == 1:
             case['key_change'] = [t for t in ('ecdsa_p384', 'ed25519', 'ecdsa_p256', 'rsa2048') if t != case['acc_key']][i % 3]
         case['odd_case'] = (i % 5 == 2)
@@ -319,7 +333,7 @@ def run(tier):
     probe_part(chk, tier)
     chk.rule = ('identifier sets (name + its wildcard with different challenges in both orders, several names with different challenges, IDN, IPv4/IPv6, '
                 'wildcards alone), 7 account key types, token lengths 1..128, CA-shuffled authorizations and challenge lists, CAs offering a subset of '
-                'types, authorizations served valid/invalid/deactivated/expired/revoked, failing challenge hooks; probe: random keys/tokens through '
+                'types, authorizations served valid/invalid/deactivated/expired/revoked, pending authorizations whose challenges are already processing, two challenge hooks (the second one also a file hook in a quarter of the cases), failing challenge hooks; probe: random keys/tokens through '
                 'get_proof; distinct = scenario shapes with hooks or authorizations observed + (key type, challenge) classes of the probe')
     chk.assumptions = ['thumbprint taken from the mock CA account table (computed from the JWK it received)', 'hookrec and mockca share CLOCK_MONOTONIC']
     code = chk.finish()
